@@ -122,8 +122,15 @@ func (s *JavaIdentifierListener) EnterMethodDeclaration(ctx *parser.MethodDeclar
 
 	typeType := ctx.TypeTypeOrVoid().GetText()
 
-	if reflect.TypeOf(ctx.GetParent().GetParent().GetChild(0)).String() == "*parser.ModifierContext" {
-		common_listener.BuildAnnotationForMethod(ctx.GetParent().GetParent().GetChild(0).(*parser.ModifierContext), &currentMethod)
+	// the class-body declaration that carries the modifiers is two levels up; a generic
+	// method (`<T> T f()`) is wrapped in a genericMethodDeclaration, which adds one level
+	declaration := ctx.GetParent().GetParent()
+	if _, generic := ctx.GetParent().(*parser.GenericMethodDeclarationContext); generic {
+		declaration = declaration.GetParent()
+	}
+
+	if reflect.TypeOf(declaration.GetChild(0)).String() == "*parser.ModifierContext" {
+		common_listener.BuildAnnotationForMethod(declaration.GetChild(0).(*parser.ModifierContext), &currentMethod)
 	}
 
 	position := core_domain.CodePosition{
@@ -141,8 +148,8 @@ func (s *JavaIdentifierListener) EnterMethodDeclaration(ctx *parser.MethodDeclar
 		Position:    position,
 	}
 
-	if reflect.TypeOf(ctx.GetParent().GetParent()).String() == "*parser.ClassBodyDeclarationContext" {
-		bodyCtx := ctx.GetParent().GetParent().(*parser.ClassBodyDeclarationContext)
+	if reflect.TypeOf(declaration).String() == "*parser.ClassBodyDeclarationContext" {
+		bodyCtx := declaration.(*parser.ClassBodyDeclarationContext)
 		for _, modifier := range bodyCtx.AllModifier() {
 			if !strings.Contains(modifier.GetText(), "@") {
 				currentMethod.Modifiers = append(currentMethod.Modifiers, modifier.GetText())
